@@ -256,7 +256,7 @@ def search_hybrid(ctx):
 
 
 def search_hourly(ctx):
-    ctx.given(simulate_case("HOURLY"), ctx.n(48, 1500), shrink=False)
+    ctx.given_shared(simulate_case("HOURLY"), ctx.total(48, 1500))
 
 
 SUBS = [
